@@ -174,7 +174,12 @@ func FuzzC13ParseIPNet(f *testing.F) {
 			func() (*net.IPNet, error) { return n, nil },
 			func() (*net.IPNet, error) { return n2, nil },
 			func() (*net.IPNet, error) { return banman.ParseIPNet(n2.IP.String(), n2.Mask) },
-			func() (*net.IPNet, error) { return banman.ParseIPNet(net.JoinHostPort(n2.IP.String(), "8333"), n2.Mask) },
+			func() (*net.IPNet, error) {
+				return banman.ParseIPNet(net.JoinHostPort(n2.IP.String(), "8333"), n2.Mask)
+			},
+			// the canonical spelling of the same address with the same mask
+			// argument denotes the same record
+			func() (*net.IPNet, error) { return banman.ParseIPNet(ref.String(), m) },
 		} {
 			qn, err := q()
 			if err != nil {
